@@ -185,8 +185,14 @@ func (pow *PoWConsensus) CheckMinerMatch(ctx xcontext.XContext, block context.Bl
 		ctx.GetLog().Warn("PoW::CheckMinerMatch::equal blockid error", "miner", string(block.GetProposer()))
 		return false, err
 	}
+	preBlock, err := pow.Ledger.QueryBlock(block.GetPreHash())
+	if err != nil {
+		ctx.GetLog().Warn("PoW::CheckMinerMatch::get preblock error", "miner", string(block.GetProposer()))
+		return false, err
+	}
 	// 验证difficulty是否正确
-	targetBits, err := pow.refreshDifficulty(block.GetPreHash(), block.GetHeight())
+	// 区块自带的height字段不在blockid的覆盖范围内, 可以被任意改写, 难度必须按父区块高度+1来计算
+	targetBits, err := pow.refreshDifficulty(block.GetPreHash(), preBlock.GetHeight()+1)
 	if err != nil {
 		ctx.GetLog().Warn("PoW::CheckMinerMatch::refreshDifficulty err", "error", err, "miner", string(block.GetProposer()))
 		return false, err
@@ -196,11 +202,6 @@ func (pow *PoWConsensus) CheckMinerMatch(ctx xcontext.XContext, block context.Bl
 		return false, err
 	}
 	// 验证时间戳是否正确
-	preBlock, err := pow.Ledger.QueryBlock(block.GetPreHash())
-	if err != nil {
-		ctx.GetLog().Warn("PoW::CheckMinerMatch::get preblock error", "miner", string(block.GetProposer()))
-		return false, err
-	}
 	if block.GetTimestamp() < preBlock.GetTimestamp() {
 		ctx.GetLog().Warn("PoW::CheckMinerMatch::unexpected block timestamp",
 			"pre", preBlock.GetTimestamp(), "next", block.GetTimestamp(), "miner", string(block.GetProposer()))
